@@ -77,8 +77,25 @@ def evaluate(data):
     return j, o, sig
 
 
+def reuse_applies(shard):
+    return shard["w"] != "tok" or (shard["vocab"] == "small" and shard["len"] <= 4)
+
+
 def check_case(label, data, info, res: Result, meta_state):
     j, o, sig = evaluate(data)
+    shared = meta_state.get("shared-parser")
+    if shared is not None:
+        # the same input through a Parser object that has already parsed every earlier
+        # case of this shard (valid and invalid ones): the verdict must not depend on it
+        o2 = lab.parse(data, parser=shared)
+        res.monitor("oracle-C-reused-parser", o2.verdict() != o.verdict())
+        if o2.verdict() != o.verdict():
+            res.violation({"dir": "verdict-depends-on-parser-reuse",
+                           "fresh": str(o.verdict()), "reused": str(o2.verdict())},
+                          {"input": data, "previous_input": meta_state.get("prev"),
+                           "reused_error": o2.error if o2.verdict() is False else None})
+            meta_state["shared-parser"] = lab.sl_parser.Parser()
+        meta_state["prev"] = data
     if label.startswith("meta:"):
         sig = None  # rewrites are judged by oracle B only (base is judged by A)
     v = o.verdict()
@@ -142,6 +159,8 @@ def near_token(j, o):
 
 def run_shard(tier, shard, res: Result):
     st = {}
+    if reuse_applies(shard):
+        st["shared-parser"] = lab.sl_parser.Parser()
     n = 0
     for label, data, info in pwork.cases(shard):
         j, o = check_case(label, data, info, res, st)
